@@ -845,11 +845,30 @@ impl<'a> Gen<'a> {
         }
     }
 
+    /// Whether every edit of file `i`'s diff section still sits where `model::invalid_reason` allows.
+    fn edits_legal(&self, i: usize) -> bool {
+        let r = render_file(&self.world.files[i], false);
+        let cands = self.insert_candidates(i);
+        let edits = self.world.files[i].diff.edits();
+        if edits.windows(2).any(|w| w[1].0 < w[0].0 + 2) {
+            return false;
+        }
+        edits.iter().all(|(l, e)| match e {
+            LineEdit::Removed { .. } => {
+                *l >= 1
+                    && *l <= r.lines.len()
+                    && !r.blocks.iter().any(|b| b.is_start_tag_line(*l) || b.end_line + 1 == *l)
+                    && r.blocks.iter().any(|b| b.start_line < *l && *l <= b.end_line)
+            }
+            _ => cands.contains(l),
+        })
+    }
+
     pub fn insert_candidates(&self, file_idx: usize) -> Vec<usize> {
         let r = render_file(&self.world.files[file_idx], false);
         let mut candidates = Vec::new();
         for l in 1..=r.lines.len() {
-            let is_tag = r.blocks.iter().any(|b| b.start_line == l || b.end_line == l);
+            let is_tag = r.blocks.iter().any(|b| b.is_start_tag_line(l) || b.end_line == l);
             if is_tag
                 || r.lines.get(l) == r.lines.get(l - 1)
                 || (l >= 2 && r.lines.get(l - 2) == r.lines.get(l - 1))
@@ -931,6 +950,22 @@ impl<'a> Gen<'a> {
                 // re-named by a generator after `gen_files`: its own extension decides again
                 f.lang = None;
             }
+        }
+        // the one-line edits were picked by rendered line number; a generator that re-named a file
+        // or touched its blocks afterwards may have moved the lines (how many lines a tag takes
+        // depends on the language): re-pick where an edit no longer sits on a legal line
+        for i in 0..self.world.files.len() {
+            if !matches!(self.world.files[i].diff, FileDiff::Insert { .. }) || self.edits_legal(i) {
+                continue;
+            }
+            let renamed_from = match &self.world.files[i].diff {
+                FileDiff::Insert { renamed_from, .. } => renamed_from.clone(),
+                _ => None,
+            };
+            self.world.files[i].diff = match self.pick_insert_line(i) {
+                Some(line) => FileDiff::Insert { line, renamed_from, edit: LineEdit::Inserted, more: vec![] },
+                None => FileDiff::Added,
+            };
         }
         if !self.world.args.list && self.rng.chance(1, 8) {
             self.world.args.dashdash = true;
